@@ -19,8 +19,11 @@ def pseudo_obs(case):
     U = np.column_stack([x / (m + 1.0), y / (m + 1.0)])
     # the ranks are what the specification speaks of; the values that carry them vary from case to case (Kendall's tau and every
     # verdict are invariant under increasing maps of either column): thirds, sevenths, tenths ... instead of r / (m + 1) only
-    k = int(len(x) + x.sum() + 2 * y.sum()) % 4
-    if k == 1:
+    k = int(len(x) + x.sum() + 2 * y.sum()) % 5
+    if k == 4 and x.max() > x.min() and y.max() > y.min():
+        # ranks stretched over the closed unit interval: the smallest observation is exactly 0.0, the largest exactly 1.0
+        U = np.column_stack([(x - x.min()) / (x.max() - x.min()), (y - y.min()) / (y.max() - y.min())])
+    elif k == 1:
         U = U * 0.7
     elif k == 2:
         U = 0.05 + 0.9 * U
